@@ -106,9 +106,9 @@ def c10(tier):
     o = {'spur': 1, 'yield_blocks': False}
     Wt, A, AW = 'vp_waiter', 'vp_arriver', 'vp_arrive_wait'
     if tier == 'quick':
-        qs.append(mk('latch_w_a2_R4', 'c10_latch.cpp', [('W', Wt), ('A', A)], 4, cover=3, defines=['NARRIVE=2'], opts=o, unwind=4))
+        qs.append(mk('latch_w_a2_R4', 'c10_latch.cpp', [('W', Wt), ('A', A)], 4, cover=3, defines=['NARRIVE=2'], opts=o, unwind=4, tv_order=(1, 0)))
         qs.append(mk('latch_w_a1_aw_R3', 'c10_latch.cpp', [('W', Wt), ('A', A), ('AW', AW)], 3, cover=7, defines=['NARRIVE=1'], opts=o, unwind=4))
-        qs.append(mk('latch_w_w_a3_R3', 'c10_latch.cpp', [('W1', Wt), ('W2', Wt), ('A', A)], 3, cover=7, defines=['NARRIVE=3'], opts=o, unwind=5))
+        qs.append(mk('latch_w_w_a3_R3', 'c10_latch.cpp', [('W1', Wt), ('W2', Wt), ('A', A)], 3, cover=7, defines=['NARRIVE=3'], opts=o, unwind=5, tv_order=(2, 0, 1)))
     else:
         o2 = {'spur': 2, 'yield_blocks': False}
         for od in orders(3, 'all'):
@@ -130,11 +130,11 @@ def c11(tier):
     o = {'spur': 1, 'yield_blocks': False}
     if tier == 'quick':
         qs.append(mk('tv_wait_trigger_R3', 'c11_trigger.cpp', [('Wt', 'vp_waiter'), ('Wf', 'vp_waiter_for'), ('T', 'vp_triggerer')], 3,
-                     setup='vp_setup_active', cover=7, opts=o, unwind=4))
+                     setup='vp_setup_active', cover=7, opts=o, unwind=4, tv_order=(2, 0, 1)))
         qs.append(mk('tv_wait_reset_R3', 'c11_trigger.cpp', [('Wt', 'vp_waiter'), ('Rs', 'vp_resetter'), ('T', 'vp_triggerer')], 3,
                      setup='vp_setup_active', cover=7, opts=o, unwind=4, defines=['WITH_RESET']))
         qs.append(mk('tv_activation_R3', 'c11_trigger.cpp', [('Wa', 'vp_act_waiter'), ('Wf', 'vp_act_waiter_for'), ('A', 'vp_activator')], 3,
-                     setup='vp_setup_inactive', cover=7, opts=o, unwind=4))
+                     setup='vp_setup_inactive', cover=7, opts=o, unwind=4, tv_order=(2, 0, 1)))
         qs.append(mk('tv_activate_vs_trigger_R3', 'c11_trigger.cpp', [('A', 'vp_activator_once'), ('T', 'vp_trigger_retry'), ('W', 'vp_act_then_wait')], 3,
                      setup='vp_setup_inactive', final='vp_final_triggered', cover=7, opts=o, unwind=4))
         qs.append(mk('tv_activate_vs_trigger_R3_o120', 'c11_trigger.cpp', [('A', 'vp_activator_once'), ('T', 'vp_trigger_retry'), ('W', 'vp_act_then_wait')], 3,
@@ -652,13 +652,13 @@ def c07(tier):
                      opts=dict(hbn, spur=1), unwind=4, timeout=900))
     else:
         qs.append(mk('hb_lr_w2_r1_R3', 'c03_lr.cpp', [W, R1], 3, final='vp_final', cover=3, defines=['NWRITES=2', 'NREADS=1'], opts=hb, timeout=3400))
-        qs.append(mk('hb_lr_w2_r1_r1_R3', 'c03_lr.cpp', [W, R1, R2], 3, final='vp_final', cover=3, defines=['NWRITES=2', 'NREADS=1'], opts=hb, timeout=3000))
-        qs.append(mk('hb_lr_w2_r2_R4', 'c03_lr.cpp', [W, R1], 4, final='vp_final', cover=3, defines=['NWRITES=2', 'NREADS=2'], opts=hb, timeout=3000))
+        qs.append(mk('hb_lr_w1_r1_R3', 'c03_lr.cpp', [W, R1], 3, final='vp_final', cover=3, defines=['NWRITES=1', 'NREADS=1'], opts=hb, timeout=3000))
+        qs.append(mk('hb_lr_w1_r1_R4', 'c03_lr.cpp', [W, R1], 4, final='vp_final', cover=3, defines=['NWRITES=1', 'NREADS=1'], opts=hb, timeout=3400))
         for mv in (0, 1, 2):
             qs.append(mk(f'hb_trip_explicit_mv{mv}_R4', 'c19_tripwire.cpp', [('O', 'vp_owner'), ('D', 'vp_detector')], 4, final='vp_final', cover=3,
                          defines=['LINEKIND=1', f'MV={mv}'], opts=hbn, unwind=4, checks='pointer', must_cover=4, timeout=3000))
         qs.append(mk('hb_latch_w_a1_aw_R3', 'c10_latch.cpp', [('W', 'vp_waiter'), ('A', 'vp_arriver'), ('AW', 'vp_arrive_wait')], 3, cover=7,
-                     defines=['NARRIVE=1', 'HB_DATA'], opts=dict(hbn, spur=1), unwind=4, timeout=3000))
+                     defines=['NARRIVE=1', 'HB_DATA', 'TOTAL_ARRIVALS=2'], opts=dict(hbn, spur=1), unwind=4, timeout=3000))
     return qs
 
 
